@@ -454,7 +454,10 @@ def main():
     a = args()
     run = Run(PID, a.tier)
     thorough = a.tier == "thorough"
-    prods = ["prod-san", "prod-verify"] + (["cfg-int64-noasm-w8-c22", "cfg-i128struct-noasm-w2-c2", "cfg-int64-san-w15"] if thorough else [])
+    prods = ["prod-san", "prod-verify", "cfg-int64-noasm-w8-c22", "cfg-i128struct-noasm-w2-c2"] + (["cfg-int64-san-w15"] if thorough else [])
+    # quick: the 32-bit-limb and the window-2 / emulated-int128 configurations run the key-algebra search only (the sort / compare
+    # phases are byte-level and do not depend on the arithmetic configuration)
+    algebra_only = [] if thorough else ["cfg-int64-noasm-w8-c22", "cfg-i128struct-noasm-w2-c2"]
     sgs = ["sg13", "sg13-verify"] + (["sg7", "sg199"] if thorough else [])
     B.build_many(prods + sgs)
     for b in prods + sgs:
@@ -480,6 +483,8 @@ def main():
             "BFS depth %d from keys {1,2,(n-1)/2,n-2,n-1,filler}, states merged on the secret key; same operations and oracle as the small-group search" % dd)
         run_phase(run, "%s/invalid-keys" % cfg, invalid_key_case, [0], setup=setup(cfg), nproc=1,
                   rule="invalid secret keys {0,n,n+1,2^256-1} through create/negate/tweak: fail with zeroed outputs")
+        if cfg in algebra_only:
+            continue
         run_phase(run, "%s/combine" % cfg, combine_case, combine_cases_prod(), setup=setup(cfg),
                   rule="ec_pubkey_combine for lengths 1..32,63,64,65,127,128,200: distinct, all equal, cancelling pair at several positions, alternating +/- (sum infinity), last key cancelling the rest")
         run_phase(run, "%s/cmp" % cfg, cmp_case, [0], setup=setup(cfg), nproc=1,
